@@ -8,6 +8,21 @@ func isLHSExpr(i IExpr) bool {
 	return true
 }
 
+// isOptChain returns true for an optional chain (a?.b, a?.b.c, a?.b(c), ...), which is not an assignment target.
+func isOptChain(i IExpr) bool {
+	switch expr := i.(type) {
+	case *DotExpr:
+		return expr.Prec == OpOpt
+	case *IndexExpr:
+		return expr.Prec == OpOpt
+	case *CallExpr:
+		return expr.Prec == OpOpt
+	case *TemplateExpr:
+		return expr.Prec == OpOpt
+	}
+	return false
+}
+
 // AsIdentifierName returns true if a valid identifier name is given.
 func AsIdentifierName(b []byte) bool {
 	if len(b) == 0 || !identifierStartTable[b[0]] {
